@@ -118,6 +118,14 @@ def run(eng, tier):
             continue
         inside += 1
         reads = [e for e in p.e['effects'] if e[0] == 'read' and e[1] == 'bid']
+        # completeness ("no bid is lost"): inside the window the whole range of old-format entries is walked -- the path ends the walk by
+        # exhaustion (iternext(range-derived iterator, k) is None) after exactly k conversions, it does not leave early
+        walk = [f for f, _, _ in p.facts if f[0] == 'is' and f[1][0] == 'iternext' and 'srange' in repr(f[1][1])]
+        ends = [f for f in walk if f[2] == 'None']
+        okc = len(ends) == 1 and ends[0][1][2] == len(bw) and all(f[2] == 'Some' for f in walk if f is not ends[0]) and \
+            any(e[3] == 'range' and OLD_T is not None and OLD_T in e[4][3] for e in reads)
+        eng.ob(okc, PROP, 'conversion', 'complete', 'a successful migration inside the conversion window does not walk the whole range of old-format bids (%d conversions; walk ended %s): a bid still in the old format would be left behind' % (
+            len(bw), 'by exhaustion after %s elements' % ends[0][1][2] if len(ends) == 1 else 'without reaching the end of the range'), where=p, detail=p.describe(14))
         for w in bw:
             nconv += 1
             eng.ob(w['op'] == 'save' and w['fpos'] > pos, PROP, 'window', 'save-inside', 'a bid write is not a save inside the window test', where=w['site'])
